@@ -1004,6 +1004,10 @@ func changeListOrMapValue(ctx *Task, obj any, index []*ast.Node, val V) *errchai
 					"key type is not string", node.StartPos())
 			}
 			if idx+1 == lenIdx {
+				if ast.Contains(val.V, curVal) {
+					return NewRunError(ctx,
+						"a map cannot be stored into itself", node.StartPos())
+				}
 				curVal[key.V.(string)] = val.V
 				return nil
 			}
@@ -1032,6 +1036,10 @@ func changeListOrMapValue(ctx *Task, obj any, index []*ast.Node, val V) *errchai
 			}
 
 			if idx+1 == lenIdx {
+				if ast.Contains(val.V, curVal) {
+					return NewRunError(ctx,
+						"a list cannot be stored into itself", node.StartPos())
+				}
 				curVal[keyInt] = val.V
 				return nil
 			}
